@@ -93,6 +93,60 @@ def ob_repetitions(tomo, seedkind, nrep):
                 outside=["joblib-parallel flow (standard_qtomography_simulation_flow), pickled results, SeedSequence.spawn"])
 
 
+SETTING_FIELDS = ["name", "seed_data", "n_rep", "num_data", "schedules", "eps_proj_physical", "eps_truncate_imaginary_part", "loss_option", "algo_option"]
+
+
+def _template(qt):
+    so = qt._set_qoperations
+    for lst in (so.states, so.povms, so.gates, so.mprocesses):
+        if lst:
+            return lst[0]
+
+
+def ob_stored_setting(tomo):
+    """execute_simulation stores the setting of the run in its result, and re-estimation rebuilds the tomography from that stored
+    setting: with every field of the setting given a DIFFERENT value, the stored setting carries the same fields, and the tomography
+    rebuilt from it has the same tolerances, seed, schedules and coefficient matrix as the tomography rebuilt from the original"""
+    def run(I):
+        import quara.simulation.standard_qtomography_simulation as SIM
+        from quara.protocol.qtomography.standard.linear_estimator import LinearEstimator
+        kw = {"m": 3} if tomo in ("povmt", "qmpt") else {}
+        with c14.prng_stub() as st:
+            qt0, _ = tomo_lib.build(tomo, "Q1", **kw)
+            ex = qt0._experiment
+            testers = {"qst": lambda: list(ex.povms), "povmt": lambda: list(ex.states)}.get(tomo, lambda: list(ex.states) + list(ex.povms))()
+            setting = SIM.StandardQTomographySimulationSetting(
+                name="case-A", true_object=truth_of(tomo), tester_objects=testers, estimator=LinearEstimator(), seed_data=7, n_rep=2,
+                num_data=[4, 9], schedules="all", eps_proj_physical=1e-3, eps_truncate_imaginary_part=1e-9)
+            qt = SIM.generate_qtomography(setting, para=False)
+            with quiet():
+                res = SIM.execute_simulation(qt, setting)
+            stored = res.simulation_setting
+            out = [Holds("the stored setting is not the caller's object", stored is not setting)]
+            for f in SETTING_FIELDS:
+                out.append(Holds(f"stored setting: {f} as given", getattr(stored, f) == getattr(setting, f)))
+            out.append(Eq("stored setting: true object as given", stored.true_object.to_stacked_vector(), setting.true_object.to_stacked_vector(), 0.0))
+            out.append(Holds("stored setting: as many tester objects", len(stored.tester_objects) == len(setting.tester_objects)))
+            for k, (a, b) in enumerate(zip(stored.tester_objects, setting.tester_objects)):
+                out.append(Eq(f"stored setting: tester {k} as given", a.to_stacked_vector(), b.to_stacked_vector(), 0.0))
+            out.append(Holds("stored setting: estimator of the same class", type(stored.estimator) is type(setting.estimator)))
+            again = SIM.generate_qtomography(stored, para=False)
+            ta, tb = _template(again), _template(qt)
+            for f in ("eps_proj_physical", "eps_truncate_imaginary_part", "on_para_eq_constraint", "is_physicality_required"):
+                out.append(Holds(f"tomography rebuilt from the stored setting: template {f}", getattr(ta, f) == getattr(tb, f)))
+            out.append(Eq("tomography rebuilt from the stored setting: coefficient matrix", again.calc_matA(), qt.calc_matA(), 0.0))
+            out.append(Eq("tomography rebuilt from the stored setting: constant vector", again.calc_vecB(), qt.calc_vecB(), 0.0))
+            for k, rep in enumerate(res.empi_dists_sequences):
+                re = LinearEstimator().calc_estimate_sequence(again, rep, is_computation_time_required=False)
+                for va, vb in zip(re.estimated_var_sequence, res.estimation_results[k].estimated_var_sequence):
+                    out.append(Eq(f"repetition {k}: re-estimation with the rebuilt tomography reproduces the stored estimate", va, vb, 0.0))
+        return out
+    return FnOb([], run, max_paths=50, tv_points=0, explore_budget=600,
+                stubs=["numpy.random / MT19937 / Generator: streams of uninterpreted draws (data-flow only)",
+                       "scipy.stats.multinomial.rvs: contract stub (counts >= 0, sum == n)"],
+                outside=["estimators whose result depends on eps_proj_physical (Dykstra stopping rule) -- the tolerance itself is claimed instead"])
+
+
 def depol_spectral(sysname):
     """spectral parametrisation of the Choi matrix of the depolarising channel diag(1, 1-p, ..., 1-p): eigenvalue d - (d - 1/d) p on the
     maximally entangled vector, p/d on its orthogonal complement (frame computed once from a concrete instance)"""
@@ -151,9 +205,12 @@ def obligations(tier):
     for tomo in tiers(tier, ["qst", "povmt"], ["qst", "povmt", "qpt", "qmpt"]):
         for sk in ("int", "generator", "none"):
             out += specs("C15.repetitions", [{"tomo": tomo, "seedkind": sk, "nrep": n} for n in tiers(tier, [3], [2, 4])], ob_repetitions, 3)
+    out += specs("C15.stored_setting", [{"tomo": t} for t in tiers(tier, ["qst", "qpt"], ["qst", "povmt", "qpt", "qmpt"])], ob_stored_setting, 3)
     for typ in TYPES:
         m = 0 if typ in ("state", "gate") else 2
-        out += specs("C15.depolarized", [{"typ": typ, "sysname": s_, "m": m} for s_ in tiers(tier, ["Q1"], ["Q1", "T1"])], ob_depolarized, 3)
+        # composite systems (two qubits): state and POVM in both tiers, gate in the thorough tier
+        multi = ["Q2"] if typ in ("state", "povm") else tiers(tier, [], ["Q2"] if typ == "gate" else [])
+        out += specs("C15.depolarized", [{"typ": typ, "sysname": s_, "m": m} for s_ in tiers(tier, ["Q1"], ["Q1", "T1"]) + multi], ob_depolarized, 3)
     return out
 
 
